@@ -273,12 +273,19 @@ func (s *muxerStream) hasContent() bool {
 }
 
 func (s *muxerStream) hasPart(segmentID uint64, partID uint64) bool {
-	for _, sop := range s.segments {
-		if seg, ok := sop.(*muxerSegmentFMP4); ok && segmentID == seg.id {
+	for i, sop := range s.segments {
+		// listed entries have consecutive ids that end right before nextSegmentID;
+		// the initial gap entries are listed too and have no parts
+		if segmentID == (s.nextSegmentID - uint64(len(s.segments)-i)) {
+			partCount := uint64(0)
+			if seg, ok := sop.(*muxerSegmentFMP4); ok {
+				partCount = uint64(len(seg.parts))
+			}
+
 			// If the Client requests a Part Index greater than that of the final
 			// Partial Segment of the Parent Segment, the Server MUST treat the
 			// request as one for Part Index 0 of the following Parent Segment.
-			if partID >= uint64(len(seg.parts)) {
+			if partID >= partCount {
 				segmentID++
 				partID = 0
 				continue
